@@ -405,6 +405,9 @@ def two_variable_stream(c, tmp, n, pairs, metas):
                     mops[v].append("FOp (HNewSession)")
                     obs[v].append([False, None, canon_src(f0, v, vid)])
             ds = (both if which == "both" else only[which]).run_combos({"a": a, "b": b}, verbosity=0)
+            if which != "both" and rng.random() < 0.5:
+                ds = ds[which]               # one variable handed over as a DataArray
+                steps[-1].append("DataArray")
             raised = False
             try:
                 h.add_ds(ds, overwrite=pol)
